@@ -520,6 +520,18 @@ def c11_sites(repo_root, tier):
                     binders |= _self_attrs(meth[name][2])
             bad = sorted(flds - binders)
             _ob(obs, f"{m.name}:{c.name}.scope/site.scope-names-are-bound", not bad, f"scope() names {sorted(flds)}, bound by map()" if not bad else f"scope() names {bad}, which map() never binds")
+            # ... and no more of them than map() binds: map() unpacks `self.params[:n]` (the item and its index); scope() hands out
+            # exactly that slice - a further parameter is never bound and reads the outer variable of that name
+            if "map" in meth and c.name == "LambdaExpression":
+                n_bound = 0
+                for a in ast.walk(meth["map"][2]):
+                    if isinstance(a, ast.Assign) and isinstance(a.targets[0], ast.Tuple) and ast.unparse(a.value).startswith("self.params[:"):
+                        n_bound = max(n_bound, len(a.targets[0].elts))
+                rets = [ast.unparse(r.value) for r in ast.walk(meth["scope"][2]) if isinstance(r, ast.Return) and r.value is not None]
+                oks = n_bound >= 1 and rets == [f"self.params[:{n_bound}]"]
+                _ob(obs, f"{m.name}:{c.name}.scope/site.scope-is-what-map-binds", oks,
+                    f"scope() returns self.params[:{n_bound}], the parameters map() binds" if oks
+                    else f"scope() returns {rets} while map() binds self.params[:{n_bound}]: parameters beyond that are reported as local although they read outer variables")
     _ob(obs, "liquid2/site.classes-found", n_nodes >= 25 and n_exprs >= 30, f"{n_nodes} Node classes and {n_exprs} Expression classes checked")
     # ---- (4)/(5) the visitor and the spans it builds
     sm = repo.module("liquid2.static_analysis")
